@@ -870,14 +870,23 @@ theorem sRunsST_fresh {s : State} (hk : InvK s) : sRunsST s.s s.tasks.length = 0
   cases hpc : s.s <;> simp only [sRunsST] <;> simp only [hpc, sOk] at hsok
   all_goals (split <;> first | rfl | (rename_i e; subst e; have := tagAt_lt hsok; omega))
 
+theorem pendB_true {pc : FPc} {x : TaskId} (h : pendB pc x = true) : ∃ ctx p, pc = .fsp ctx x p := by
+  unfold pendB at h
+  split at h
+  · rename_i c st; have e : st = x := by simpa using h
+    subst e; exact ⟨_, _, rfl⟩
+  · rename_i c st; have e : st = x := by simpa using h
+    subst e; exact ⟨_, _, rfl⟩
+  · cases h
+
 theorem pend_fresh {s : State} (hk : InvK s) : pend s.fs s.tasks.length = 0 := by
   apply List.countP_eq_zero.mpr
   intro g hg hp
   obtain ⟨j, hj⟩ := List.mem_iff_getElem?.mp hg
   have hok := hk.fref j g hj
-  cases hpc : g.pc <;> simp only [hpc, pendB] at hp <;> try (cases hp; done)
-  all_goals (rename_i ctx st p; cases p <;> simp only [pendB] at hp <;> try (cases hp; done))
-  all_goals (simp only [hpc, fOk] at hok; have := tagAt_lt hok; simp at hp; omega)
+  obtain ⟨ctx, p, hpc⟩ := pendB_true hp
+  simp only [hpc, fOk] at hok
+  have := tagAt_lt hok; omega
 
 theorem count_fresh {s : State} (hk : InvK s) : s.ready.count s.tasks.length = 0 := by
   apply List.count_eq_zero.mpr
@@ -900,7 +909,7 @@ theorem InvS.spawn {s s' : State} {i : Nat} {f f' : FThread} {t : TaskId} {ctx :
     rw [ht] at hx
     rcases Nat.lt_trichotomy x s.tasks.length with hlt | heq | hgt
     · rw [List.getElem?_append_left hlt] at hx; exact Or.inr ⟨hlt, hx⟩
-    · subst heq; simp at hx; exact Or.inl ⟨rfl, hx.2.symm⟩
+    · subst heq; simp at hx; exact Or.inl ⟨rfl, hx.2⟩
     · rw [List.getElem?_eq_none (by simp; omega)] at hx; cases hx
   refine ⟨?_, ?_⟩
   · intro x tg hx
@@ -932,8 +941,18 @@ theorem stepF_S {s s' : State} {i : Nat} (hk : InvK s) (h : InvS s) (hs : stepF 
            | (simp only [pendB, hpc]; done)
            | (simp only [pendB, hpc, count_append_self]; done)
            | (simp only [pendB, hpc, count_append_self, b2n]; simp; done))
-    | skip
-  all_goals trace_state
-  all_goals sorry
+
+theorem init_S (threaded : Bool) (users : List (List UItem)) (progs : List (List Op)) :
+    InvS (Handoff.init threaded users progs) := by
+  refine ⟨?_, ?_⟩ <;>
+  · intro x tg hl
+    simp only [Handoff.init, List.getElem?_map] at hl
+    rcases hu : users[x]? with _ | u <;> simp [hu] at hl
+
+theorem reach_KS {threaded users progs} {s : State} (hok : namesOk users progs) (hr : Reachable threaded users progs s) :
+    InvK s ∧ InvS s :=
+  hr.induct (P := fun s => InvK s ∧ InvS s) ⟨init_K _ _ _ hok, init_S _ _ _⟩
+    (fun _ _ _ h hs => ⟨stepS_K h.1 hs, stepS_S h.1 h.2 hs⟩) (fun _ _ _ h hs => ⟨stepH_K h.1 hs, stepH_S h.1 h.2 hs⟩)
+    (fun _ _ _ _ h hs => ⟨stepF_K h.1 hs, stepF_S h.1 h.2 hs⟩) (fun _ _ _ _ h hs => ⟨stepT_K h.1 hs, stepT_S h.2 hs⟩)
 
 end Pox.Handoff
